@@ -3,8 +3,9 @@
 (* The window law of a TCP sender -- property C17.                         *)
 (*                                                                         *)
 (* Written from the property text and the textbook Reno / CUBIC rules:     *)
+(*  AppData   the application hands over more data (buffer grows)          *)
 (*  Send      new data leaves in MSS-sized, consecutively numbered         *)
-(*            segments, only while                                         *)
+(*            segments, only while, at the moment of sending,              *)
 (*              next_seq + MSS <= min(buffered data, last_ack + cwnd)      *)
 (*  NewAck    an ACK above last_ack.  If the sender is in fast recovery    *)
 (*            (three or more duplicates counted) cwnd is first deflated to *)
@@ -71,23 +72,29 @@ svars == <<now, cwnd, ssth, dup, la, ns, buf, srtt, rttvar, rto, cub, last, ntx,
 MSS == cfg.mss
 InRecovery == dup >= 3
 
-InitWith(c, cw0, ss0, srtt0, rv0, rto0, cub0, t0) ==
+InitWith(c, cw0, ss0, srtt0, rv0, rto0, cub0, t0, b0) ==
   /\ cfg = c /\ now = t0
-  /\ cwnd = cw0 /\ ssth = ss0 /\ dup = 0 /\ la = 0 /\ ns = 0 /\ buf = 0
+  /\ cwnd = cw0 /\ ssth = ss0 /\ dup = 0 /\ la = 0 /\ ns = 0 /\ buf = b0
   /\ srtt = srtt0 /\ rttvar = rv0 /\ rto = rto0 /\ cub = cub0
   /\ last = [k |-> "", seq |-> -1] /\ ntx = 0
 
 Tx(kind, seq) == last' = [k |-> kind, seq |-> seq] /\ ntx' = ntx + 1
 NoTx == UNCHANGED <<last, ntx>>
 
-(* ----------------------------------------------------------------- Send *)
-\* b: the amount of data the application has handed over by now (never shrinks, never beyond the flow size)
-WindowOpen(b) == ns + MSS <= b /\ MayLe(N(ns + MSS - la), cwnd)
-Send(b) ==
-  /\ b >= buf /\ (cfg.size > 0 => b <= cfg.size)
-  /\ WindowOpen(b)
-  /\ ns' = ns + MSS /\ buf' = b /\ Tx("new", ns)
-  /\ UNCHANGED <<now, cwnd, ssth, dup, la, srtt, rttvar, rto, cub, cfg>>
+(* -------------------------------------------------------- AppData, Send *)
+\* The application hands over more data: the buffered amount grows to b (never shrinks, never beyond the flow
+\* size).  WHEN it does so is the application's business (the property is silent): an environment step.
+AppData(b) ==
+  /\ b > buf /\ (cfg.size > 0 => b <= cfg.size)
+  /\ buf' = b
+  /\ UNCHANGED <<now, cwnd, ssth, dup, la, ns, srtt, rttvar, rto, cub, last, ntx, cfg>>
+\* The guard is a predicate of the state AT THE MOMENT OF SENDING: the window and the buffer as they are now,
+\* not as they were when the sender last looked (e.g. before it waited for application data).
+WindowOpen == ns + MSS <= buf /\ MayLe(N(ns + MSS - la), cwnd)
+Send ==
+  /\ WindowOpen
+  /\ ns' = ns + MSS /\ Tx("new", ns)
+  /\ UNCHANGED <<now, cwnd, ssth, dup, la, buf, srtt, rttvar, rto, cub, cfg>>
 
 (* --------------------------------------------------------------- growth *)
 Zero == Minus(N(0), N(0))
